@@ -31,6 +31,7 @@ type vfNackScript struct {
 		S     uint32 `json:"s"`
 		W     uint16 `json:"w"`
 		Nack  bool   `json:"nack"`
+		Stale bool   `json:"stale"` // recv: through the reader of the stream's PREVIOUS binding (after its Unbind)
 		WFail bool   `json:"wfail"` // tick: the RTCP writer refuses every write of this tick (after it has seen the packet)
 		Fb    string `json:"fb"`    // RTCP feedback list of the stream: "" (nack only, if Nack), "plifirst", "nackfirst", "plionly", "other"
 	} `json:"steps"`
@@ -202,6 +203,7 @@ func vfRunIcpt(t *testing.T, sc *vfNackScript, out *vfWriter) {
 		next   []byte
 	}
 	streams := map[uint32]*bound{}
+	stale := map[uint32]*bound{} // the reader a stream had before its last Unbind
 	for _, st := range sc.Steps {
 		switch st.A {
 		case "bind":
@@ -241,10 +243,16 @@ func vfRunIcpt(t *testing.T, sc *vfNackScript, out *vfWriter) {
 			if b := streams[st.S]; b != nil {
 				ic.UnbindRemoteStream(b.info)
 				delete(streams, st.S)
+				stale[st.S] = b
 			}
 			out.Emit(vfM{"a": "unbind", "s": st.S})
 		case "recv":
 			b := streams[st.S]
+			if st.Stale { // a straggler read through the reader of the unbound binding: must not touch any stream
+				if b = stale[st.S]; b == nil {
+					continue
+				}
+			}
 			if b == nil {
 				continue
 			}
@@ -254,6 +262,11 @@ func vfRunIcpt(t *testing.T, sc *vfNackScript, out *vfWriter) {
 			buf := make([]byte, 1500)
 			if n, _, err := b.reader.Read(buf, interceptor.Attributes{}); err != nil || n != len(raw) {
 				t.Fatalf("VERIF-INFRA read: n=%d err=%v", n, err)
+			}
+			if st.Stale {
+				out.Emit(vfM{"a": "stale", "s": st.S, "w": st.W})
+
+				continue
 			}
 			out.Emit(vfM{"a": "recv", "s": st.S, "w": st.W})
 		case "tick":
